@@ -985,6 +985,43 @@ def _generator_locals_to_loops(stmts, repo, f, new_funcs, resolve_helper):
                 out.append(nxt)
                 i += 2
                 continue
+        # the same with statements in between (the generator is created before a `with` opens and consumed inside it): a generator's
+        # body does not start before the first item is requested, so only the evaluation of the call's arguments happens early -
+        # plain names / paths / constants that nothing in the function re-binds
+        if isinstance(st, ast.Assign) and len(st.targets) == 1 and isinstance(st.targets[0], ast.Name) and isinstance(st.value, ast.Call):
+            g = st.targets[0].id
+            mentions = [x for x in ast.walk(f.node) if isinstance(x, ast.Name) and x.id == g]
+            if len(mentions) == 2:
+                def find_loop(lst):
+                    for s2 in lst:
+                        if isinstance(s2, ast.For) and isinstance(s2.iter, ast.Name) and s2.iter.id == g:
+                            return s2
+                        if isinstance(s2, (ast.With, ast.AsyncWith)):
+                            r = find_loop(s2.body)
+                            if r is not None:
+                                return r
+                        elif isinstance(s2, ast.If):
+                            r = find_loop(s2.body) or find_loop(s2.orelse)
+                            if r is not None:
+                                return r
+                    return None
+                loop = find_loop(stmts[i + 1:])
+                if loop is not None:
+                    h, _ = resolve_helper(repo, f, st.value)
+                    stored = {x.id for x in ast.walk(f.node) if isinstance(x, ast.Name) and isinstance(x.ctx, (ast.Store, ast.Del))}
+
+                    def plain(e):
+                        if isinstance(e, ast.Constant):
+                            return True
+                        if isinstance(e, ast.Attribute):
+                            return plain(e.value)
+                        return isinstance(e, ast.Name) and e.id not in stored
+                    args_ok = all(plain(a) for a in st.value.args) and all(k.arg is not None and plain(k.value) for k in st.value.keywords) \
+                        and (not isinstance(st.value.func, ast.Attribute) or plain(st.value.func.value))
+                    if h is not None and (h.qname in new_funcs or _is_local_procedure(f.node, h.node, allow_nested=True)) and h.node is not f.node and _is_generator(h.node) and args_ok:
+                        loop.iter = st.value
+                        i += 1
+                        continue
         out.append(st)
         i += 1
     return out
